@@ -194,7 +194,7 @@ func checkC07(p *Prog, r *Result, tier string) {
 	r.Explanation = "N3 both totals (plugin and manager) saturate: the choice between `total = MaxInt` and `total += capacity` tests the running total AND the addend; " +
 		"AG1 capacity and allocation obtain CPU plans from schedule.GetCPUPlans with argument-wise identical sources (node info, no affinity map, configured share base and max share, the request); the reported capacity is len(plans) and the allocation refuses exactly when len(plans) < count; " +
 		"AG2 the memory branch of capacity and doAllocByMemory use the same two operands (available memory of the node info / requested memory) with the same zero-means-unlimited guard and the same CPU-count precheck; AG3 both sides choose between the memory and the CPU branch on the same condition (req.CPUBind); " +
-		"DOM a node enters the offered map only under Capacity > 0, and the total is accumulated under the same guard."
+		"DOM a node enters the offered map only under Capacity > 0, and the total is accumulated under the same guard; MG the manager's merge of the plugins' answers (rules shared with C09: a node is kept only if every plugin offers it, its capacity is the minimum, the first-answer path is taken only for a nil accumulator, the fold passes (accumulator, answer)) — otherwise a node or a capacity is reported that some plugin's allocation refuses."
 	r.NotCovered = "the numeric identity itself (that the largest accepted count equals the quotient / plan count for every state); 'allocating k lowers capacity by k' over a history; overflow of a sum of finite capacities"
 	r.Assumptions = []string{"the planner is deterministic for equal arguments (see C33 for the NUMA order caveat)"}
 	r.min("N3", 2)
@@ -219,6 +219,23 @@ func checkC07(p *Prog, r *Result, tier string) {
 		return
 	}
 	checkSaturatingTotals(p, r, GN, MG)
+	// the manager's merge decides which nodes are offered and with which capacity: the rules that C09 applies to it
+	// (nil-accumulator guard, ok-checked intersection, Capacity = min over the sources, argument order of the fold) are
+	// necessary for C07 as well — a node one plugin does not offer, or a capacity above one plugin's, is accepted by no allocation
+	{
+		tmp := newResult("C07")
+		checkC09(p, tmp, tier)
+		for _, o := range tmp.Obligs {
+			switch o.Rule {
+			case "UN2", "UN3", "UN4", "FOLD", "FOLD2":
+				o.Rule = "MG-" + o.Rule
+				r.Obligs = append(r.Obligs, o)
+			}
+		}
+		r.min("MG-UN3", 1)
+		r.min("MG-UN4", 1)
+		r.min("MG-UN2", 2)
+	}
 
 	roles := func(fn *FuncNode, info, req int) map[types.Object]string {
 		m := map[types.Object]string{}
